@@ -69,7 +69,11 @@ def run_translators():
 
 
 def lake_build(targets):
-    r = sh(["lake", "build"] + targets, cwd=LEAN, timeout=3600)
+    try:
+        r = sh(["lake", "build"] + targets, cwd=LEAN, timeout=2400)
+    except subprocess.TimeoutExpired as e:
+        sh("pkill -f '[b]in/lean '")
+        return False, "error: lake build %s timed out after 2400 s" % " ".join(targets)
     return r.returncode == 0, r.stdout + r.stderr
 
 
@@ -336,7 +340,8 @@ def finish(ctx, level_rule, checker_cmd, trusted_base, extra=None):
         "evaluations": ctx.evaluations,
         "distinct_nontrivial": len(ctx.nontrivial),
         "rule": level_rule,
-        "samples": ctx.samples[:6] or [{"note": "no correspondence cases in this run"}],
+        "samples": [{k: (v if not isinstance(v, str) or len(v) <= 700 else v[:700] + "…[%d chars]" % len(v))
+                     for k, v in s.items()} for s in ctx.samples[:6]] or [{"note": "no correspondence cases in this run"}],
         "streams": ctx.streams,
         "known_findings_hit": sorted(seen),
         "notes": ctx.notes,
